@@ -110,6 +110,11 @@ func c03Run(c *vk.Ctx) {
 			return
 		}
 	}
+	for i := 0; i < c.N(1, 3); i++ {
+		if !c03TwoListeners(c, r, "C03") {
+			return
+		}
+	}
 }
 
 func c03Clients(c *vk.Ctx, r *rand.Rand, w *c03World, fc *udpClient) bool {
@@ -539,6 +544,8 @@ func init() {
 			c.Require("zoned_link_local_replies_verified")
 			c.Require("hostname_pairs_intact")
 			c.Require("list_replacements_checked")
+			c.Require("two_listener_datagrams_intact")
+			c.Require("one_socket_two_listeners_checked")
 			c.Require("destination_form_ipv4-mapped-ipv6")
 			c.Require("destination_form_ip-literal-as-domain")
 			c03Run(c)
